@@ -514,6 +514,7 @@ func (b *builder) buildC05() {
 // C06: pipelined well-formed messages with ground truth; lying peers; EOF /
 // abort faults; separate population with in-flight corruption.
 func (b *builder) buildC06() {
+	b.g.Strict = true
 	nc := b.r.PickInt(1, 1, 2)
 	var plans []connPlan
 	for i := 0; i < nc; i++ {
